@@ -69,6 +69,11 @@ CORPUS = [
     ('gfa2', 1, ['E\te1\tx+\ty+\t5\t3\t0\t3\t*', 'E\te2\tx+\ty+\t8$\t10$\t0\t3\t*', 'S\ty\t10\t*', 'E\te3\tx+\ty+\t0\t3\t5\t3\t*',
                  'G\tg\tx+\tq\t5\t*', 'F\tx\tr\t0\t3\t0\t3\t*', 'E\te4\tx+\ty+\t0\t3\t7\t10$\t*']),
     ('gfa2', 3, ['S\ta\t10\t*', 'U\tu\ts2 a', 'S\ts2\t-5\t*', 'S\ts2\t5\tAC GT', 'S\ts2\t5\t*', 'O\to\ta+ e9+', 'E\te9\ta+\tzz\t0\t1\t0\t1\t*']),
+    # the version still unknown: a header line whose VN is fine but whose other tag clashes with the stored header is refused
+    # and the version stays undecided (the lines that follow may be of either version); the same with an unsupported VN
+    (None, 1, ['H\txx:i:1', 'H\tVN:Z:1.0\txx:Z:a', 'H\tVN:Z:3.0', 'H\tVN:Z:2.0\txx:i:1', 'S\ta\t10\t*', 'H\tVN:Z:1.0']),
+    (None, 0, ['H\txx:i:1\tyy:Z:b', 'H\tVN:Z:2.0\tyy:i:3', 'H\tVN:Z:1.0\txx:i:1', 'S\ta\t*', 'S\tb\t10\t*']),
+    (None, 2, ['# c', 'H\tab:Z:x', 'H\tVN:Z:2.0\tab:i:1', 'H\tVN:Z:1.0\tab:Z:x', 'S\ta\t*', 'L\ta\t+\tb\t+\t1M']),
     ('gfa1', 1, ['P\tp\ta+,b+\t*', 'S\ta\t*\tLN:i:3', 'S\tb\tACGT\tLN:i:9', 'S\tb\tACGT', 'L\ta\t+\tb\t+\t1Q', 'L\ta\t+\tb\t+\t1M']),
 ]
 
